@@ -523,7 +523,7 @@ structure Wake where
   queue : FastQueue Nat
   pipe : Nat            -- bytes in the pipe
   cap : Nat             -- pipe capacity in bytes (one byte per notify)
-  readOnce : Bool       -- `false`: the code as it is (`while os.read(fd, 1024): pass`); `true`: a single `os.read(fd, 1024)`
+  chunk : Nat           -- `0`: the code as it is (`while os.read(fd, 1024): pass` reads everything); `n > 0`: one `os.read(fd, n)`
   phase : TickPhase
   -- ghost
   owing : Nat           -- callers that have `put` and not yet called `notify`
@@ -535,18 +535,22 @@ inductive WOut where
   | ok | queueFull | error
   deriving DecidableEq, Repr
 
-/-- `PipeNotifier.notify`: `os.write(fd, b'o')`, EAGAIN ignored -/
-def pipeNotify (pipe cap : Nat) : Nat × WOut := if pipe < cap then (pipe + 1, .ok) else (pipe, .ok)
+/-- `PipeNotifier.notify`: `os.write(fd, b'o')`, EAGAIN ignored.  `acc` is the kernel's answer for a pipe
+that is neither empty nor full: a pipe whose tail page has no room refuses a byte although fewer than
+`cap` bytes are unread (only reachable when the reader leaves bytes behind); an EMPTY pipe always takes
+the byte, a full one never. -/
+def pipeNotify (pipe cap : Nat) (acc : Bool) : Nat × WOut :=
+  if pipe = 0 ∨ (acc = true ∧ pipe < cap) then (pipe + 1, .ok) else (pipe, .ok)
 
 /-- the unrepaired `notify` (before D67): EAGAIN escapes as `BlockingIOError` -/
 def pipeNotifyPinned (pipe cap : Nat) : Nat × WOut := if pipe < cap then (pipe + 1, .ok) else (pipe, .error)
 
 /-- `__onNewNotification`: what is left in the pipe -/
-def pipeDrain (readOnce : Bool) (pipe : Nat) : Nat := if readOnce then pipe - min pipe 1024 else 0
+def pipeDrain (chunk : Nat) (pipe : Nat) : Nat := if chunk = 0 then 0 else pipe - min pipe chunk
 
 inductive WLabel where
   | put (v : Nat)          -- a caller: `commandsQueue.put_nowait`
-  | notify                 -- a caller: `pipeNotifier.notify()` (after its put)
+  | notify (acc : Bool)    -- a caller: `pipeNotifier.notify()` (after its put); `acc`: see `pipeNotify`
   | process (k : Nat)      -- tick thread: `_checkCommandsToApply` dequeues (up to) `k` commands
   | poll                   -- tick thread: `_poller.poll`: reads the pipe when it is readable
   deriving Repr
@@ -557,14 +561,14 @@ def Wake.step (w : Wake) : WLabel → Wake × WOut
       | none => (w, .queueFull)                -- `Queue.Full`: `notify` is skipped, QUEUE_FULL goes to the callback
       | some q' => ({ w with queue := q', owing := w.owing + 1, freshPuts := w.freshPuts + 1,
                              sinceProc := w.sinceProc + 1 }, .ok)
-  | .notify =>
-      let r := pipeNotify w.pipe w.cap
+  | .notify acc =>
+      let r := pipeNotify w.pipe w.cap acc
       ({ w with pipe := r.1, owing := w.owing - 1 }, r.2)
   | .process k =>
       let rest := w.queue.items.drop k
       ({ w with queue := { w.queue with items := rest }, phase := .poll, sinceProc := 0, leftover := rest.length }, .ok)
   | .poll =>
-      if w.pipe > 0 then ({ w with pipe := pipeDrain w.readOnce w.pipe, freshPuts := 0, phase := .process }, .ok)
+      if w.pipe > 0 then ({ w with pipe := pipeDrain w.chunk w.pipe, freshPuts := 0, phase := .process }, .ok)
       else ({ w with phase := .process }, .ok)
 
 def Wake.run (w : Wake) : List WLabel → Wake × List WOut
@@ -574,8 +578,8 @@ def Wake.run (w : Wake) : List WLabel → Wake × List WOut
       let rr := r.1.run ls
       (rr.1, r.2 :: rr.2)
 
-def Wake.init (maxSize cap : Nat) (readOnce : Bool) : Wake :=
-  ⟨⟨[], maxSize⟩, 0, cap, readOnce, .process, 0, 0, 0, 0⟩
+def Wake.init (maxSize cap : Nat) (chunk : Nat) : Wake :=
+  ⟨⟨[], maxSize⟩, 0, cap, chunk, .process, 0, 0, 0, 0⟩
 
 /-- the tick thread is about to sleep in `poll` although nobody is going to wake it -/
 def Wake.sleeps (w : Wake) : Bool := w.phase == .poll && w.pipe == 0 && w.owing == 0
